@@ -480,3 +480,44 @@ _units_whole = units
 
 def units(tier):   # noqa: F811
     return _units_whole(tier) + init_units()
+
+
+# ------------------------------------------------------------------------------------------------ premise of lemma L5
+def l5_guard():
+    """Lemma L5 (order-isomorphism invariance) is used to restrict values to {0..N-1} in the whole-function units and
+    to make weak-order enumeration complete in the native sweeps.  Its premise - the routines touch the values only
+    through comparisons - is checked on /repo's current text on every run: no arithmetic operator may be applied to a
+    value-typed expression in Persistence_on_rectangle.h / Persistence_on_a_line.h."""
+    import re
+    from vp.extract import _stripped, ExtractionError
+    bad = []
+    txt = _stripped(R)
+    a = txt.index("struct Persistence_on_rectangle")
+    body = txt[a:]
+    val = r"(?:\bf\b|\bfa\b|\bfb\b|\binput\([^()]*\)|\.first\b|\bfilt\(\))"
+    for m in re.finditer(rf"{val}\s*(?:[-+*/%](?![-+>=])|\+\+|--)|(?<![-+<>=!&|(,\s])\s*[-+*/%]\s*{val}", body):
+        ctx = body[max(0, m.start() - 30):m.end() + 30].replace("\n", " ")
+        if "input_size" in ctx or "input_p" in ctx:
+            continue
+        bad.append("rectangle: " + ctx)
+    txt = _stripped(L)
+    a = txt.index("compute_persistence_of_function_on_line")
+    body = re.sub(r"data\.end\(\)\[-\d\]", "DATA_END_K", txt[a:])
+    body = re.sub(r"data\.end\(\)\s*-\s*\d", "DATA_END_MINUS_K", body)
+    val = r"(?:\bv\b|\bdata\[[^\]]*\]|\bdata\.back\(\)|DATA_END_K|\*it)"
+    for m in re.finditer(rf"{val}\s*(?:[-+*/%](?![-+>=])|--)|[-+*/%]\s*{val}", body):
+        ctx = body[max(0, m.start() - 30):m.end() + 30].replace("\n", " ")
+        if "*it++" in ctx.replace(" ", ""):
+            continue
+        bad.append("line: " + ctx)
+    if bad:
+        raise ExtractionError("premise of lemma L5 violated (arithmetic on a filtration value): " + " | ".join(bad[:3]))
+    return "no arithmetic on filtration values in Persistence_on_rectangle.h / Persistence_on_a_line.h"
+
+
+_units_init = units
+
+
+def units(tier):   # noqa: F811
+    l5_guard()
+    return _units_init(tier)
